@@ -884,7 +884,10 @@ fn newchannel_resets_pairing(_region: &str, evs: &[String], outs: &[String], sna
 /// the regional maximum EIRP a device applies (RP002 defaults)
 fn max_eirp_dev(region: &str) -> i32 {
     match region {
-        "EU868" | "EU433" | "AS923_1" | "AS923_2" | "AS923_3" | "AS923_4" => 16,
+        // RP002: EU868 and AS923 16 dBm; EU433 12.15 dBm (10 dBm ERP), i.e. 12 in whole dBm;
+        // US915 / AU915 / IN865 30 dBm
+        "EU868" | "AS923_1" | "AS923_2" | "AS923_3" | "AS923_4" => 16,
+        "EU433" => 12,
         _ => 30,
     }
 }
